@@ -91,6 +91,8 @@ func verifC01TickProgress() {
 		p.state = CandidatePairState(verifInt(1, 4))
 		p.nominated = verifBool()
 		p.bindingRequestCount = uint16(verifInt(0, 9))
+		p.nominateOnBindingSuccess = verifBool()
+		p.renominateOnBindingSuccess = verifBool()
 	}
 	for _, l := range w.locals {
 		l.priorityOverride = verifU32()
